@@ -10,7 +10,7 @@ use serde::{Deserialize, Serialize};
 use serde_json::{json, Value};
 use std::collections::BTreeSet;
 
-pub const CONTEXTS: [&str; 12] = [
+pub const CONTEXTS: [&str; 14] = [
     "@",
     "Option<@>",
     "Vec<@>",
@@ -24,6 +24,9 @@ pub const CONTEXTS: [&str; 12] = [
     // spelled with a module path instead of an import
     "models::@",
     "Vec<crate::models::@>",
+    // a tuple that ends / starts with another tuple (parentheses pile up at either end of the text)
+    "(String, (u32, @))",
+    "((@, u32), String)",
 ];
 
 /// spellings of "derives Serialize/Deserialize"
@@ -46,8 +49,10 @@ pub enum Root {
     Event,
     /// event payload bound by an annotated `let` whose initialiser names something else
     EventLet,
+    /// success arm of a Result whose error type has a top-level comma of its own
+    ReturnOkCommaErr,
 }
-pub const ROOTS: [Root; 6] = [Root::Param, Root::ReturnOk, Root::ReturnErr, Root::Channel, Root::Event, Root::EventLet];
+pub const ROOTS: [Root; 7] = [Root::Param, Root::ReturnOk, Root::ReturnErr, Root::Channel, Root::Event, Root::EventLet, Root::ReturnOkCommaErr];
 
 /// naming schemes for the nodes: plain, names that start with a container's name, names that embed
 /// other words the analyser looks for
@@ -143,6 +148,7 @@ impl Case {
             Root::Param => cmd.push_str(&format!("#[tauri::command]\npub fn entry(p: {}) -> bool {{ let _ = p; true }}\n", root_ty)),
             Root::ReturnOk => cmd.push_str(&format!("#[tauri::command]\npub fn entry() -> Result<{}, String> {{ Err(String::new()) }}\n", root_ty)),
             Root::ReturnErr => cmd.push_str(&format!("#[tauri::command]\npub fn entry() -> Result<i32, {}> {{ Ok(1) }}\n", root_ty)),
+            Root::ReturnOkCommaErr => cmd.push_str(&format!("#[tauri::command]\npub fn entry() -> Result<{}, HashMap<String, Vec<String>>> {{ Err(HashMap::new()) }}\n", root_ty)),
             Root::Channel => cmd.push_str(&format!("#[tauri::command]\npub fn entry(ch: Channel<{}>) -> bool {{ let _ = ch; true }}\n", root_ty)),
             Root::Event => cmd.push_str(&format!(
                 "#[tauri::command]\npub fn entry() -> bool {{ true }}\npub fn fire(app: &AppHandle, p: {}) {{ app.emit(\"fired\", p).unwrap(); }}\n",
